@@ -138,12 +138,12 @@ fn candidates(h: &History, v: &Violation) -> Vec<History> {
                         Op::Open { plan, .. } if *plan != Plan::default() => {
                             let mut plans = vec![Plan::default()];
                             if !plan.release.is_empty() {
-                                plans.push(Plan { bursts: plan.bursts.clone(), release: vec![] });
+                                plans.push(Plan { bursts: plan.bursts.clone(), release: vec![], producers: plan.producers.clone() });
                             }
                             let n = plan.bursts.len();
                             if n > 1 {
-                                plans.push(Plan { bursts: plan.bursts[..n / 2].to_vec(), release: plan.release.clone() });
-                                plans.push(Plan { bursts: plan.bursts[n / 2..].to_vec(), release: plan.release.clone() });
+                                plans.push(Plan { bursts: plan.bursts[..n / 2].to_vec(), release: plan.release.clone(), producers: plan.producers.clone() });
+                                plans.push(Plan { bursts: plan.bursts[n / 2..].to_vec(), release: plan.release.clone(), producers: plan.producers.clone() });
                                 // merge neighbours: fewer context switches
                                 let mut merged: Vec<(u8, u16)> = Vec::new();
                                 for (i, b) in plan.bursts.iter().enumerate() {
@@ -155,7 +155,19 @@ fn candidates(h: &History, v: &Violation) -> Vec<History> {
                                     }
                                     merged.push(*b);
                                 }
-                                plans.push(Plan { bursts: merged, release: plan.release.clone() });
+                                plans.push(Plan { bursts: merged, release: plan.release.clone(), producers: plan.producers.clone() });
+                            }
+                            // simpler producer schedules: none (each in turn), first half, longer stretches
+                            if !plan.producers.is_empty() {
+                                let m = plan.producers.len();
+                                plans.push(Plan { producers: vec![], ..plan.clone() });
+                                if m > 1 {
+                                    plans.push(Plan { producers: plan.producers[..m / 2].to_vec(), ..plan.clone() });
+                                    plans.push(Plan { producers: plan.producers[..m - 1].to_vec(), ..plan.clone() });
+                                }
+                                if plan.producers.iter().any(|b| b.1 != u16::MAX) {
+                                    plans.push(Plan { producers: plan.producers.iter().map(|b| (b.0, u16::MAX)).collect(), ..plan.clone() });
+                                }
                             }
                             for p in plans {
                                 let mut c = h.clone();
@@ -269,7 +281,14 @@ fn candidates(h: &History, v: &Violation) -> Vec<History> {
                     }
                 }
             }
-            Step::Cli { exact, describe, .. } => {
+            Step::Cli { exact, describe, split, .. } => {
+                if *split {
+                    let mut c = h.clone();
+                    if let Step::Cli { split, .. } = &mut c.steps[si] {
+                        *split = false;
+                    }
+                    out.push(c);
+                }
                 if *describe {
                     let mut c = h.clone();
                     if let Step::Cli { describe, .. } = &mut c.steps[si] {
